@@ -552,6 +552,11 @@ fn spawn_async_ao_list_in_task'''),
         if candidate_fd_num == 0 {''', '''        candidate_fd_num -= 1;
         if candidate_fd_num < 0 {'''),
     ],
+    'U22': [
+        ('escaped-brace-skipped-with-sloppy-escape-flag', 'brush-core/src/expansion.rs', "            if !last_was_unescaped_dollar_sign {\n                saw_opening_brace = true;", "            if !last_was_unescaped_dollar_sign && !last_was_escape {\n                saw_opening_brace = true;"),
+        ('closing-brace-after-dollar-skipped-again', 'brush-core/src/expansion.rs', "        } else if c == '}' {\n            saw_closing_brace = true;", "        } else if c == '}' && !last_was_unescaped_dollar_sign {\n            saw_closing_brace = true;"),
+        ('dollar-flag-ignores-escape', 'brush-core/src/expansion.rs', "last_was_unescaped_dollar_sign = !last_was_escape && c == '$';", "last_was_unescaped_dollar_sign = c == '$';"),
+    ],
     'U16': [
         ('tilde-not-flagged-at-start', 'brush-core/src/escape.rs', "    matches!(c, '#' | '~')", "    matches!(c, '#')"),
         ('bang-not-flagged', 'brush-core/src/escape.rs', "            | '!'\n", ""),
